@@ -441,8 +441,8 @@ SCALES = [2.0 ** -10, 0.001, 0.125, 0.3, 1.0, 3.0, 7.5, 1000.0, 2.0 ** 12]
 @st.composite
 def a_map(draw, cls, nonneg):
     if cls == 'rank':
-        opts = ['identity', 'affine', 'cube', 'exp', 'lib-rank', 'lib-minmax', 'pow2'] + (
-            ['lib-sqrt'] if nonneg else [])
+        opts = ['identity', 'affine', 'cube', 'exp', 'lib-rank', 'lib-minmax', 'pow2', 'lib-rank>sqrt',
+                'lib-rank>sqrt'] + (['lib-sqrt'] if nonneg else [])
     elif cls == 'cos':
         opts = ['identity', 'scale', 'scale', 'pow2']
     else:
@@ -457,15 +457,27 @@ def a_map(draw, cls, nonneg):
         m['a'] = draw(st.sampled_from(SCALES))
     if k == 'affine':
         m['b'] = draw(gen.grid_float(kmax=64, mmax=2))
-    if k == 'lib-rank':
+    if k in ('lib-rank', 'lib-rank>sqrt'):
         m['method'] = draw(st.sampled_from(['average', 'min', 'max', 'dense']))
     return m
 
 
-def apply_map(m, vecs):
-    """returns the mapped vectors (list of lists)"""
+LIB_OBJECTS = {}
+
+
+def apply_map(m, vecs, slot=None):
+    """returns the mapped vectors (list of lists); for library transforms the RDMs object the
+    library returned (measure name included) is kept in LIB_OBJECTS[slot] and handed to compare()
+    as it is - a chain of transforms must not leave a label behind that changes a comparison"""
     k = m['kind']
     x = np.array(vecs, dtype=float)
+    LIB_OBJECTS.pop(slot, None)
+    if k == 'lib-rank>sqrt':
+        o1 = lib(T.rank_transform, RDMs(x.copy()), method=m['method'], on_error='violation',
+                 sig='raises:rank_transform')
+        o2 = lib(T.sqrt_transform, o1, on_error='violation', sig='raises:sqrt_transform')
+        LIB_OBJECTS[slot] = o2
+        return np.array(o2.get_vectors(), dtype=float).tolist()
     if k == 'identity':
         y = x
     elif k == 'scale':
@@ -479,13 +491,19 @@ def apply_map(m, vecs):
     elif k == 'exp':
         y = np.exp(x / 4.0)
     elif k == 'lib-sqrt':
-        y = lib(T.sqrt_transform, RDMs(x.copy()), on_error='violation', sig='raises:sqrt_transform').get_vectors()
+        o = lib(T.sqrt_transform, RDMs(x.copy()), on_error='violation', sig='raises:sqrt_transform')
+        LIB_OBJECTS[slot] = o
+        y = o.get_vectors()
     elif k == 'lib-rank':
-        y = lib(T.rank_transform, RDMs(x.copy()), method=m['method'], on_error='violation',
-                sig='raises:rank_transform').get_vectors()
+        o = lib(T.rank_transform, RDMs(x.copy()), method=m['method'], on_error='violation',
+                sig='raises:rank_transform')
+        LIB_OBJECTS[slot] = o
+        y = o.get_vectors()
     elif k == 'lib-minmax':
-        y = lib(T.minmax_transform, RDMs(x.copy()), on_error='violation',
-                sig='raises:minmax_transform').get_vectors()
+        o = lib(T.minmax_transform, RDMs(x.copy()), on_error='violation',
+                sig='raises:minmax_transform')
+        LIB_OBJECTS[slot] = o
+        y = o.get_vectors()
     else:
         raise ValueError(k)
     return np.array(y, dtype=float).tolist()
@@ -519,9 +537,10 @@ def invariance_case(draw):
                 map1=draw(a_map(cls, nonneg)), map2=draw(a_map(cls, nonneg)))
 
 
-def _compare(method, v1, v2, sigma):
+def _compare(method, v1, v2, sigma, objs=(None, None)):
     sk = None if sigma is None else np.array(sigma, dtype=float)
-    a, b = RDMs(np.array(v1, dtype=float)), RDMs(np.array(v2, dtype=float))
+    a = objs[0] if objs[0] is not None else RDMs(np.array(v1, dtype=float))
+    b = objs[1] if objs[1] is not None else RDMs(np.array(v2, dtype=float))
     if method in ('cosine_cov', 'corr_cov'):
         return np.asarray(lib(C.compare, a, b, method=method, sigma_k=sk, on_error='violation',
                               sig='raises:compare:' + method), dtype=float)
@@ -533,7 +552,8 @@ def check_invariance(case):
     m, sigma, n = case['method'], case['sigma'], case['n_cond']
     v1, v2 = case['v1'], case['v2']
     before = _compare(m, v1, v2, sigma)
-    w1, w2 = apply_map(case['map1'], v1), apply_map(case['map2'], v2)
+    w1, w2 = apply_map(case['map1'], v1, 1), apply_map(case['map2'], v2, 2)
+    objs = (LIB_OBJECTS.pop(1, None), LIB_OBJECTS.pop(2, None))
     if case['cls'] == 'rank':
         for a, b in list(zip(v1, w1)) + list(zip(v2, w2)):
             if not order_isomorphic(a, b):
@@ -541,7 +561,7 @@ def check_invariance(case):
                     raise Violation('library transform %s/%s is not strictly increasing on %r -> %r' % (
                         case['map1']['kind'], case['map2']['kind'], a, b), 'invariance:transform-not-monotone')
                 raise Reject('generated map not order-preserving in floating point', 'harness:map')
-    after = _compare(m, w1, w2, sigma)
+    after = _compare(m, w1, w2, sigma, objs)
     if sigma is None:
         rtol, atol = 1e-9, 1e-9
     else:
